@@ -263,6 +263,34 @@ def parse_line(line):
     return strict, repl, ops
 
 
+def gen(ctx):
+    """regenerate Gen/OrderedTx.lean: `OrderedSamples.add_to_nested_samples` (the index program every removal and the
+    finalisation go through) translated statement by statement by harness/pyarr2lean.py; theorem
+    C04.add_to_nested_samples_source_eq_model (generated definition = the model's `addToNested`) is re-proved each run."""
+    from . import core, pyarr2lean, py2lean
+    spec = pyarr2lean.ArrSpec(
+        source="nessai/samplers/importancesampler.py", func="add_to_nested_samples", cls="OrderedSamples",
+        name="add_to_nested_samples",
+        params=[("self.nested_samples_indices", "self_nested_samples_indices", "iarr"), ("indices", "indices", "iarr")],
+        outputs=["self.nested_samples_indices"], doc="`OrderedSamples.add_to_nested_samples` (returns the new nested_samples_indices)")
+    try:
+        t = pyarr2lean.translate_arr(core.REPO, spec)
+    except py2lean.TranslationError as e:
+        ctx.broken(f"translator: OrderedSamples.add_to_nested_samples: {e}",
+                   "Gen/OrderedTx.lean was left as it was (the theorem is about the last translatable source)")
+        return
+    except (OSError, SyntaxError) as e:
+        ctx.broken(f"translator: cannot read/parse the source: {e}")
+        return
+    text = ("import NessaiVerif.Model.PySlice\nimport NessaiVerif.Model.OrderedSamples\n"
+            "/-\nGENERATED by harness/pyarr2lean.py (harness/c04.py gen) from the CURRENT nessai source — do not edit.\n"
+            "C04: index program of OrderedSamples.add_to_nested_samples.\n-/\n"
+            "namespace NessaiVerif.Gen.OrderedTx\nopen NessaiVerif\n\n" + t.lean + "\nend NessaiVerif.Gen.OrderedTx\n")
+    changed = py2lean.write_if_changed(core.LEAN / "NessaiVerif" / "Gen" / "OrderedTx.lean", text)
+    ctx.extra["generated"] = {"add_to_nested_samples": dict(source=spec.source, lines=[t.first_line, t.last_line], sha256=t.sha256,
+                                                              rewritten=changed)}
+
+
 def correspond(ctx):
     ctx.rule = ("op sequences init/add/thr/remove/finalise on the real OrderedSamples for the four strict x replace-all modes: "
                 "committed corpus first, random sequences over a 5-value likelihood alphabet with thresholds below/inside/above it "
